@@ -232,16 +232,25 @@ class Container:
         raise NotImplementedError
 
     def _checkForCrossReferences(self, memo=None):
-        if not self._checkedForCrossReferences:
-            if memo is None:
-                memo = []
-            if any(x is self for x in memo):
-                raise ContainerException(f"cannot fill a tree that contains the same aggregator twice: {self}")
-            # an identity list, not a set: hashing a container hashes its whole content and can raise
-            memo.append(self)
-            for child in self.children:
+        top = memo is None
+        if top:
+            if self._checkedForCrossReferences:
+                return
+            memo = []
+        # inside a walk every node is visited, checked before or not: a node that was checked on
+        # its own can still occur twice in this tree
+        if any(x is self for x in memo):
+            raise ContainerException(f"cannot fill a tree that contains the same aggregator twice: {self}")
+        # an identity list, not a set: hashing a container hashes its whole content and can raise
+        memo.append(self)
+        template = self.__dict__.get("value")
+        for child in self.children:
+            if child is not template:  # an unfilled value template may be shared by many containers
                 child._checkForCrossReferences(memo)
-            self._checkedForCrossReferences = True
+        if top:
+            # only a complete walk without duplicates marks the nodes as checked
+            for x in memo:
+                x._checkedForCrossReferences = True
 
     def toJsonFile(self, fileName):
         path = Path(fileName)
